@@ -227,7 +227,16 @@ def check(prop, tier, seed, budget=None):
     os.makedirs(os.path.join(OUTDIR, "evidence"), exist_ok=True)
     with Lock(".buildlock"):
         rc, out = run_extract()
-        if rc != 0: broken.append({"obligation": "Gen extraction (tools/extract.py)", "detail": out[-3000:]})
+        if rc != 0:
+            # only the generated files this property's theorems / the driver depend on count against it
+            failed = re.findall(r"^extract.py: FAILED (\S+)\.lean :: (.*)$", out, flags=re.M)
+            deps = set()
+            for m in cfg["lean_modules"] + ["Driver.Main"]: lean_deps(m, deps)
+            mine = [(f, msg) for f, msg in failed if "Heathcliff.Gen." + f in deps]
+            if mine or not failed:
+                broken.append({"obligation": "Gen extraction (tools/extract.py): " + ", ".join(f for f, _ in mine), "detail": (" | ".join(f + ": " + msg for f, msg in mine) or out)[-3000:]})
+            other_gen_failures = [f for f, _ in failed if (f, _) not in mine]
+        else: other_gen_failures = []
         rc, out = lake_build(cfg["lean_modules"] + ["hcdrv"])
         if rc != 0:
             bad = re.findall(r"^- (\S+)", out, flags=re.M)
@@ -312,6 +321,7 @@ def check(prop, tier, seed, budget=None):
             "model_disagreements": len(res.model_fail), "spec_disagreements": len(res.spec_fail),
             "search_evaluations": searched, "exhaustive": bool(cfg.get("exhaustive", {}).get(tier, False)),
             "explanation": cfg.get("explanation", ""),
+            "generated_files_failing_elsewhere": other_gen_failures,
         },
         "assumptions": cfg.get("assumptions", []),
         "wall_s": round(time.time() - t0, 2), "violations": len(viol) + (1 if (broken and not viol) else 0),
